@@ -663,6 +663,24 @@ pub fn run_race(seed: u64, out: &str, args: &[String]) -> bool {
                 if world.enabled("sweeper") { perform(&mut world, &Choice::Role("sweeper".to_string()), &mut sink)?; }
                 settle(&mut world, &mut sink, None)?;
             }
+            // ... and every deadline the race has left behind is visited: the clock is carried just past each deadline held by the
+            // expiry index or by a stored value (they may differ: that is what the races are about), and the shard of that second
+            // is swept — an index entry out of step with its stored value is then either re-validated or shows its damage
+            if rng.chance(60) {
+                let now = world.clock.0.load(Ordering::SeqCst) as u128;
+                let (snap, _, shards) = world.cache.verif_try_snapshot();
+                let mut deadlines: Vec<u128> = shards.iter().flatten().flat_map(|entries| entries.iter().map(|(_, expiry)| ns(expiry))).collect();
+                deadlines.extend(snap.store.iter().filter_map(|entry| entry.3.as_ref().map(ns)));
+                deadlines.retain(|deadline| *deadline >= now && *deadline - now < 5_000_000_000_000);
+                deadlines.sort();
+                deadlines.dedup();
+                for deadline in deadlines.into_iter().take(3) {
+                    let now = world.clock.0.load(Ordering::SeqCst) as u128;
+                    if deadline + 1 > now { perform(&mut world, &Choice::Advance((deadline + 1 - now) as u64), &mut sink)?; }
+                    if world.enabled("sweeper") { perform(&mut world, &Choice::Role("sweeper".to_string()), &mut sink)?; }
+                    settle(&mut world, &mut sink, None)?;
+                }
+            }
             // 5. what a caller sees afterwards
             for req in [Req::Get(hot), Req::Get(1), Req::Weight] {
                 if world.pending_job[1] || World::at("c1") != "client.idle" { break; }
